@@ -30,7 +30,10 @@ KNOWN = 'gmm-equal-count-seeding'
 R = 262144
 
 
-def make_beads(rng, balanced):
+def make_beads(rng, balanced, container='float'):
+    # container 'float': RFI stored directly ($DATATYPE=F, range 2^18); 'int': 10-bit, 4-decade log-amplified integers
+    # that the real to_rfi converts (RFI range [1, 9910])
+    R, floor = (262144, 8.0) if container == 'float' else (9910.0, 3.0)
     K = int(rng.integers(6, 9))
     C = int(rng.integers(1, 4))
     blank = rng.random() < 0.4
@@ -53,10 +56,10 @@ def make_beads(rng, balanced):
         ratios = rng.uniform(2.5, 4.0, size=nb - 1)
         top = float(rng.uniform(0.05, 0.5)) * R
         lad = top / np.concatenate([[1.0], np.cumprod(ratios[::-1])])[::-1]
-        if lad[0] < 8:           # keep the dimmest population clear of the lower limit
-            lad = lad * (8.0 / lad[0])
+        if lad[0] < floor:       # keep the dimmest population clear of the lower limit
+            lad = lad * (floor / lad[0])
             if lad[-1] > 0.5 * R:
-                lad = np.geomspace(8, 0.5 * R, nb)
+                lad = np.geomspace(floor, 0.5 * R, nb)
         mefp = np.exp(b) * lad ** m
         auto = float(rng.uniform(mefp[0] / 50, mefp[0] / 3.2)) if (blank or rng.random() < 0.7) else 0.0
         mef = mefp - auto
@@ -67,7 +70,7 @@ def make_beads(rng, balanced):
             r0 = (auto / np.exp(b)) ** (1 / m)
             med = [r0] + med
             mefl = [0.0] + mefl
-            lim = [r0 < 8] + lim          # a blank this dim sits near the lower limit: selection may drop it (either accepted)
+            lim = [r0 < floor] + lim      # a blank this dim sits near the lower limit: selection may drop it (either accepted)
         if sat_hi:
             med[-1] = R * float(rng.uniform(1.3, 2.0))
             lim[-1] = True
@@ -84,6 +87,9 @@ def make_beads(rng, balanced):
                 sg = np.sqrt(np.log(1 + cv[k] ** 2))
                 col[sel] = med[k] * np.exp(rng.normal(0, sg, size=sel.sum()))
         col = np.clip(col, 0, R - 1)
+        if container == 'int':
+            # what a 10-bit, 4-decade log amplifier records: channel = 256*log10(x), clipped to [0, 1023]
+            col = np.clip(np.round(256.0 * np.log10(np.maximum(col, 1e-9))), 0, 1023)
         cols.append(col)
         laws.append((m, b, auto))
         mefs.append(mefl)
@@ -92,7 +98,7 @@ def make_beads(rng, balanced):
     order = rng.permutation(N)
     X = np.column_stack(cols)[order]
     truth = truth[order]
-    return dict(K=K, C=C, X=X, truth=truth, laws=laws, mef=mefs, med=rfis, atlimit=atlimit, blank=blank,
+    return dict(container=container, K=K, C=C, X=X, truth=truth, laws=laws, mef=mefs, med=rfis, atlimit=atlimit, blank=blank,
                 sat_hi=sat_hi, sat_lo=sat_lo, sizes=sizes)
 
 
@@ -129,12 +135,18 @@ def run(ctx):
     ids = [('bal', i) for i in range(nb)] + [('unb', i) for i in range(nu)]
     for cid, rng in ctx.cases(ids):
         mon.cid = cid
-        bd = make_beads(rng, cid[0] == 'bal')
+        container = 'int' if rng.random() < 0.35 else 'float'
+        bd = make_beads(rng, cid[0] == 'bal', container)
         K, C = bd['K'], bd['C']
         names = ['FL%d' % (c + 1) for c in range(C)]
-        spec = dict(version='FCS3.0', datatype='F', widths=[32] * C, events=bd['X'].tolist(), ranges=[R] * C,
-                    names=names, pne=['0,0'] * C)
-        s = zoo.write_and_load(F, spec, path)
+        if container == 'float':
+            spec = dict(version='FCS3.0', datatype='F', widths=[32] * C, events=bd['X'].tolist(), ranges=[R] * C,
+                        names=names, pne=['0,0'] * C)
+            s = zoo.write_and_load(F, spec, path)
+        else:
+            spec = dict(version='FCS3.0', datatype='I', widths=[16] * C, events=bd['X'].astype(int).tolist(), ranges=[1024] * C,
+                        names=names, pne=['4,1'] * C)
+            s = F.transform.to_rfi(zoo.write_and_load(F, spec, path))
         # unknown entries
         mef_values = [list(v) for v in bd['mef']]
         unknown = [[False] * K for _ in range(C)]
@@ -156,12 +168,12 @@ def run(ctx):
         mv_arg = mef_values[0] if single else mef_values
         known = predicate_known(F, s, cl_ch, bd['truth'], K)
         tag = '[known:%s]' % KNOWN if known else ''
-        desc = dict(K=K, C=C, sizes=bd['sizes'], blank=bd['blank'], sat_hi=bd['sat_hi'], sat_lo=bd['sat_lo'],
+        desc = dict(container=container, K=K, C=C, sizes=bd['sizes'], blank=bd['blank'], sat_hi=bd['sat_hi'], sat_lo=bd['sat_lo'],
                     clustering_channels=cl_ch, statistic='mean' if use_mean else 'median', seed=seed,
                     laws=bd['laws'], unknown=[[int(u) for u in row] for row in unknown], known_key=KNOWN if known else None)
         with np.errstate(all='ignore'):
             o = run_once(F, s, bd, mv_arg, chans_arg, cl_ch, stat, seed)
-        klass = (cid[0], 'C%d' % C, 'blank' if bd['blank'] else '-', 'sat' if (bd['sat_hi'] or bd['sat_lo']) else '-',
+        klass = (cid[0], container, 'C%d' % C, 'blank' if bd['blank'] else '-', 'sat' if (bd['sat_hi'] or bd['sat_lo']) else '-',
                  'unknown' if any(any(u) for u in unknown) else '-', 'mean' if use_mean else 'median', 'pred' if known else 'strict')
         ctx.counters['chk:partition'] += 1
         if not ctx.check(not o.raised, 'workflow-raised' + tag, cid, exc=core.exc_str(o.exc) if o.raised else None, **desc):
@@ -266,7 +278,7 @@ def run(ctx):
                         ok = ok and float(np.max(np.abs(y / (np.exp(b_) * x ** m_) - 1))) <= 0.10
             ctx.check(ok, 'event-order-dependence' + tag, cid, **desc)
         ctx.case_done(class_key=klass, nontrivial=True, distinct_key=core.digest(bd['X']),
-                      sample={k: desc[k] for k in ('K', 'C', 'sizes', 'blank', 'sat_hi', 'sat_lo', 'clustering_channels', 'statistic', 'laws')}
+                      sample={k: desc[k] for k in ('container', 'K', 'C', 'sizes', 'blank', 'sat_hi', 'sat_lo', 'clustering_channels', 'statistic', 'laws')}
                       if cid[1] < 2 else None)
     mon.detach()
 
